@@ -25,9 +25,14 @@ func ParseSchema(filename string, src []byte) (*ast.Schema, error) {
 }
 
 type parser struct {
-	lex *lexer
-	tok token
+	lex   *lexer
+	tok   token
+	depth int
 }
+
+// maxTypeDepth bounds the nesting of Set<...> and record types: parser, resolver and both
+// encoders are recursive over the type tree.
+const maxTypeDepth = 1000
 
 func (p *parser) readToken() error {
 	tok, err := p.lex.next()
@@ -782,6 +787,11 @@ func (p *parser) parseAppliesTo() (*ast.AppliesTo, error) {
 
 // parseType parses Path | 'Set' '<' Type '>' | '{' AttrDecls '}'
 func (p *parser) parseType() (ast.IsType, error) {
+	p.depth++
+	defer func() { p.depth-- }()
+	if p.depth > maxTypeDepth {
+		return nil, p.errorf("type nesting exceeds %d levels", maxTypeDepth)
+	}
 	if p.tok.Type == tokenLBrace {
 		rec, err := p.parseRecordType()
 		if err != nil {
